@@ -436,6 +436,10 @@ fn scenario_conn(w: &mut World, t: Transport, rng: &mut Rng) {
             w.pump(12);
         }
     }
+    wind_down(w, lid, &eps, peers, raw_listeners, rng);
+}
+
+fn wind_down(w: &mut World, lid: ResourceId, eps: &[Endpoint], mut peers: Vec<RawPeer>, raw_listeners: Vec<TcpListener>, rng: &mut Rng) {
     w.pump(60);
     // wind down: peers go away, everything is removed, then probes after the end
     for p in peers.drain(..) {
@@ -464,6 +468,71 @@ fn scenario_conn(w: &mut World, t: Transport, rng: &mut Rng) {
         w.is_ready(ep.resource_id());
         w.remove(ep.resource_id());
     }
+}
+
+
+/// fixed endings (always run first): the peer's last data and its FIN/RST reach the node together,
+/// at each point of a short exchange; the data must be delivered and exactly one Disconnected follow
+fn scenario_endings(w: &mut World, t: Transport, k: u64, rng: &mut Rng) {
+    let (lid, addr) = w.listen(t);
+    w.armed.clear();
+    let mut eps: Vec<Endpoint> = vec![];
+    let mut peers: Vec<RawPeer> = vec![];
+    let mut raw_listeners: Vec<TcpListener> = vec![];
+    let mut end_now = |w: &mut World, mut p: RawPeer, msgs: usize, reset: bool| {
+        if let Some(a) = peer_local(&p) {
+            w.closed_peers.push(a);
+        }
+        for i in 0..msgs {
+            peer_write(&mut p, t, 10 + i);
+        }
+        peer_end(p, reset);
+    };
+    match k {
+        0 | 1 | 4 => {
+            if let Some(p) = raw_connect(w, t, addr) {
+                w.pump(30);
+                end_now(w, p, if k == 4 { 3 } else { 1 }, k == 1);
+            }
+        }
+        2 if t != Transport::Ws => {
+            // data and FIN are already there when the listener is polled for the first time
+            if let Ok(s) = TcpStream::connect(addr) {
+                end_now(w, RawPeer::Tcp(s), 2, false);
+            }
+        }
+        3 if t != Transport::Ws => {
+            // the node connects out; the raw acceptor answers with data and closes at once
+            let l = TcpListener::bind("127.0.0.1:0").unwrap();
+            let ep = w.connect(t, l.local_addr().unwrap());
+            eps.push(ep);
+            if let Ok((s, _)) = l.accept() {
+                let mut p = RawPeer::Tcp(s);
+                peer_write(&mut p, t, 7);
+                peer_end(p, false);
+            }
+            raw_listeners.push(l);
+        }
+        _ => {
+            // established first, some traffic, then a final burst and the end
+            if let Some(mut p) = raw_connect(w, t, addr) {
+                w.pump(30);
+                peer_write(&mut p, t, 5);
+                w.pump(30);
+                end_now(w, p, 2, false);
+            }
+        }
+    }
+    w.pump(150);
+    if k == 3 {
+        // the outbound endpoint must have seen its Disconnected by now
+        for ep in &eps {
+            if w.ctl.is_ready(ep.resource_id()).is_some() {
+                w.leaks.push(format!("the acceptor closed after its data but {} is still registered: no Disconnected", ep.resource_id()));
+            }
+        }
+    }
+    wind_down(w, lid, &eps, peers.drain(..).collect(), raw_listeners, rng);
 }
 
 fn scenario_udp(w: &mut World, rng: &mut Rng) {
@@ -607,14 +676,24 @@ fn run_scenarios(out: &mut impl std::io::Write, seed: u64, n: u64) {
         let mut r = Rng::new(1);
         scenario_conn(&mut w, Transport::Tcp, &mut r);
     }
-    for i in 0..n {
+    const ENDINGS: u64 = 18; // 6 fixed endings x 3 stream transports, before the random scenarios
+    for i in 0..n + ENDINGS {
         let base = fds();
         let panics_before = panics();
-        let t = [Transport::Tcp, Transport::FramedTcp, Transport::Ws, Transport::Udp][(i % 4) as usize];
+        let fixed = i < ENDINGS;
+        let t = if fixed {
+            [Transport::Tcp, Transport::FramedTcp, Transport::Ws][(i % 3) as usize]
+        }
+        else {
+            [Transport::Tcp, Transport::FramedTcp, Transport::Ws, Transport::Udp][((i - ENDINGS) % 4) as usize]
+        };
         let mut w = World::new();
         let fds_with_node = fds();
         let res = std::panic::catch_unwind(std::panic::AssertUnwindSafe(|| {
-            if t == Transport::Udp {
+            if fixed {
+                scenario_endings(&mut w, t, i / 3, &mut rng)
+            }
+            else if t == Transport::Udp {
                 scenario_udp(&mut w, &mut rng)
             }
             else {
@@ -642,6 +721,9 @@ fn run_scenarios(out: &mut impl std::io::Write, seed: u64, n: u64) {
             verdict = Err(format!("descriptors after dropping the node: {} vs {}", fds_after, base));
         }
         let mut tags = vec![format!("{}", t)];
+        if fixed {
+            tags.push("ending".into());
+        }
         if items.iter().any(|i| matches!(i, Item::EvConnected(_, false))) {
             tags.push("refused".into());
         }
